@@ -67,7 +67,7 @@ pub fn prop_cfg(prop: &str, thorough: bool) -> PropCfg {
         "C10" => PropCfg { groups: grp::STR | grp::WITH | grp::VALUE | grp::FORMS, padded: true, ..base },
         "C11" => PropCfg { groups: grp::STR | grp::WITH | grp::FORMS, padded: true, sentences: 12 * k, mutations: 16 * k, small_cap: 100 * k, ..base },
         "C15" => PropCfg { groups: grp::STR | grp::TREE | grp::TRAVERSAL, ..base },
-        "C16" => PropCfg { groups: grp::STR | grp::TREE | grp::GETTERS | grp::WALK, ..base },
+        "C16" => PropCfg { groups: grp::STR | grp::TREE | grp::GETTERS | grp::WALK, variants: true, ..base },
         "C17" => PropCfg { families: &["arity", "unicode", "core", "repo", "stack", "getter", "random"], groups: grp::STR | grp::WALK, ..base },
         "C18" => PropCfg { groups: grp::STR | grp::VALUE | grp::TREE | grp::FORMS | grp::PAIRS, padded: true, sentences: 16 * k, mutations: 24 * k, small_cap: 200 * k, ..base },
         "C20" => PropCfg { families: &["rec", "core", "repo", "getter", "stack", "random"], groups: grp::STR | grp::TREE, variants: true, sentences: 16 * k, mutations: 24 * k, small_cap: 150 * k, ..base },
